@@ -22,7 +22,7 @@ fn next_up(x: f32, k: i64) -> f32 {
 
 pub fn run(tier: Tier) -> Report {
     let rep = Report::new("C19", tier);
-    rep.set_rule("complete grids: (1) ltwh->universal->ltwh over magnitudes^4 (confidences 1, 0, .3, .5; by reference, by value, through the ltwh constructors); (2) polygon/area/centre/radius of every box of the size x angle menu; (2b) every sequence of <= 4 (thorough 5) operations from {gen_vertices, rotate_mut x2, set xc / yc / height / aspect, angle=None, clone, rotate} on 3 start boxes: the polygon cached by gen_vertices() on a rotated box and the result of get_vertices() are the polygon of the box as it is at that moment; (3) every coordinate x base x delta x both argument orders for both box types; (4) normalize_angle over f32 bit patterns in [-1000,1000] (thorough: every pattern; quick: stride + neighbourhoods of multiples of 2*pi). A case is non-trivial when it is not the identity comparison / zero angle.");
+    rep.set_rule("complete grids: (1) ltwh->universal->ltwh over magnitudes^4 (confidences 1, 0, .3, .5; by reference, by value, through the ltwh constructors); (2) polygon/area/centre/radius of every box of the size x angle menu; (2b) every sequence of <= 4 (thorough 5) operations from {gen_vertices, rotate_mut x2, set xc / yc / height / aspect, angle=None, clone, rotate} on 3 start boxes: the polygon cached by gen_vertices() on a rotated box and the result of get_vertices() are the polygon of the box as it is at that moment; (3) every coordinate x base x delta x both argument orders for both box types, and every subset of 2..5 coordinates moved at once by .5 / .8 epsilon (one of them optionally by 1.5 epsilon); (4) normalize_angle over f32 bit patterns in [-1000,1000] (thorough: every pattern; quick: stride + neighbourhoods of multiples of 2*pi). A case is non-trivial when it is not the identity comparison / zero angle.");
     rep.assume("reference arithmetic in f64; decisions asserted only outside a rounding margin");
 
     // (1) round trip
@@ -447,6 +447,54 @@ pub fn run(tier: Tier) -> Report {
                         &mut decided,
                         &mut undecided,
                     );
+                }
+            }
+        }
+    }
+    // several coordinates perturbed at once: equality is decided coordinate by coordinate - every subset of two or
+    // more coordinates, each moved by .5 / .8 of epsilon in either direction (equal), and the same with one of them
+    // moved by 1.5 epsilon (not equal)
+    {
+        let signs = [1.0f32, -1.0];
+        for ty in 0..2usize {
+            for mask in 1u32..32 {
+                if mask.count_ones() < 2 {
+                    continue;
+                }
+                for &frac in &[0.5f32, 0.8] {
+                    for &sg in &signs {
+                        for beyond in 0..=5usize {
+                            // beyond == 5: every moved coordinate stays within epsilon
+                            if beyond < 5 && mask & (1 << beyond) == 0 {
+                                continue;
+                            }
+                            let a = if ty == 0 { [1.0f32, 2.0, 3.0, 4.0, 0.5] } else { [1.0f32, 2.0, 0.5, 1.5, 4.0] };
+                            let mut b = a;
+                            let mut maxd = 0.0f64;
+                            for c in 0..5usize {
+                                if mask & (1 << c) != 0 {
+                                    let alt = if c % 2 == 0 { sg } else { -sg };
+                                    let d = alt * e * if c == beyond { 1.5 } else { frac };
+                                    b[c] = a[c] + d;
+                                    maxd = maxd.max((b[c] as f64 - a[c] as f64).abs());
+                                }
+                            }
+                            let (ab, ba, refl) = if ty == 0 {
+                                let x = BoundingBox::new_with_confidence(a[0], a[1], a[2], a[3], a[4]);
+                                let y = BoundingBox::new_with_confidence(b[0], b[1], b[2], b[3], b[4]);
+                                (x == y, y == x, x == x && y == y)
+                            } else {
+                                let x = Universal2DBox::new(a[0], a[1], Some(a[2]), a[3], a[4]);
+                                let y = Universal2DBox::new(b[0], b[1], Some(b[2]), b[3], b[4]);
+                                (x == y, y == x, x == x && y == y)
+                            };
+                            n3 += 1;
+                            // the confidence of an ltwh box is not one of its coordinates: only 'within epsilon => equal' is demanded of it
+                            let is_coord = !(ty == 0 && beyond == 4);
+                            let tyn = ["BoundingBox", "Universal2DBox"][ty];
+                            check_eq(&rep, tyn, "several-at-once", is_coord, maxd, ab, ba, refl, json!({"part":"eq","type":tyn,"several_at_once":true,"a":a,"b":b}), &mut decided, &mut undecided);
+                        }
+                    }
                 }
             }
         }
